@@ -75,6 +75,7 @@ package bytes
 //@   assumes quoted strings are shorter than 2^40 bytes
 //@   defines ok == unq_ok(s, len(s))
 //@   defines ok ==> len(t) == unq_len(s, len(s))
+//@   defines ok ==> str(t) == unq_str(s, len(s))
 //@   ensures ok ==> 0 <= len(t) && len(t) <= 4 * len(s)
 //@   no_panic
 //@   loop#1 invariant 0 <= r && r <= len(s) && len(s) == len(old(s)) - 2
@@ -87,10 +88,14 @@ package bytes
 // length of the value with surrounding quotes removed and escapes decoded (what minLength / maxLength measure)
 //@ fun unquotedLen(b Bytes) Int := (len(b.data) >= 2 && b.data[0] == 34 && b.data[len(b.data)-1] == 34 && unq_ok(b.data, len(b.data))) ? unq_len(b.data, len(b.data)) : len(b.data)
 
+//- the string a value denotes: quotes removed and escapes decoded when it is a well-formed quoted string, else the raw text
+//@ fun unquotedStr(b Bytes) string := (len(b.data) >= 2 && b.data[0] == 34 && b.data[len(b.data)-1] == 34 && unq_ok(b.data, len(b.data))) ? unq_str(b.data, len(b.data)) : str(b.data)
+
 //@ func (Bytes).Unquote
 //@   property C01 C04 C02
 //@   requires len(b.data) <= 1099511627776
 //@   ensures len(result.data) == unquotedLen(b)
+//@   ensures str(result.data) == unquotedStr(b)
 //@   no_panic
 
 //@ pred isBlankByte(c Int) := c == 32 || c == 9 || c == 10 || c == 13
@@ -131,3 +136,18 @@ package bytes
 //@   loop#1 invariant -1 <= rangeindex && rangeindex < len(b.data) - 1 && len(b.data) >= 2 && b.data[0] == 64
 //@   loop#1 invariant forall i :: 1 <= i && i <= rangeindex + 1 ==> isUserTypeNameByte(b.data[i])
 //@   loop#1 decreases len(b.data) - rangeindex
+
+// ---- trimming blanks on both sides (C17) --------------------------------------------------------------------
+
+//@ func (Bytes).TrimSpaces
+//@   property C17 C02
+//@   let n := len(b.data)
+//@   ensures (forall i :: 0 <= i && i < n ==> isBlankByte(b.data[i])) ==> len(result.data) == 0
+//@   ensures !(forall i :: 0 <= i && i < n ==> isBlankByte(b.data[i])) ==> result.data.arr == b.data.arr && 0 <= (result.data.off - b.data.off) && (result.data.off - b.data.off) < n && len(result.data) >= 1 && (result.data.off - b.data.off) + len(result.data) <= n
+//@   ensures len(result.data) > 0 ==> !isBlankByte(result.data[0]) && (forall i :: 0 <= i && i < (result.data.off - b.data.off) ==> isBlankByte(b.data[i]))
+//@   ensures len(result.data) > 0 ==> !isBlankByte(result.data[len(result.data)-1]) && (forall i :: (result.data.off - b.data.off) + len(result.data) <= i && i < n ==> isBlankByte(b.data[i]))
+//@   no_panic
+//@   loop#1 invariant 0 <= left && left <= n && right == n - 1 && (forall i :: 0 <= i && i < left ==> isBlankByte(b.data[i]))
+//@   loop#1 decreases n - left
+//@   loop#2 invariant 0 <= left && left < n && !isBlankByte(b.data[left]) && left <= right && right <= n - 1 && (forall i :: 0 <= i && i < left ==> isBlankByte(b.data[i])) && (forall i :: right < i && i < n ==> isBlankByte(b.data[i]))
+//@   loop#2 decreases right
